@@ -31,7 +31,7 @@ TraceNext ==
        [] ev.e = "tdone" -> ThreadDone(ev) /\ OsSkip
        [] ev.e = "os" -> /\ Consume
                          /\ OsEvent(ev, live)
-                         /\ IF ~ev.ok THEN OsRefused ELSE IF ev.call = "mmap" THEN OsMapped ELSE UNCHANGED osfail
+                         /\ IF ~ev.ok THEN OsRefused ELSE IF ev.call = "mmap" THEN OsMapped(ev.t) ELSE UNCHANGED osfail
                          /\ UNCHANGED <<live, heaps, dflt, backing, flux, arenas, cfg, pcm>>
        [] ev.e = "clock" -> Consume /\ OsClock(ev) /\ ApiSame
        [] ev.e = "areas" -> Consume /\ OsAreas(ev, live) /\ ApiSame
@@ -50,6 +50,7 @@ TraceNext ==
                             /\ osfail' = (0 :> <<FALSE, FALSE>>) /\ pcm' = <<0, 0>> /\ UNCHANGED cfg
                             /\ OsReset
        [] ev.e = "round" -> Round(ev) /\ OsSkip
+       [] ev.e = "refill" -> Refill(ev) /\ OsSkip
        [] ev.e = "end" -> Consume /\ ApiSame /\ OsSkip
        [] OTHER -> FALSE
 
